@@ -31,3 +31,15 @@ func (pc *PeerConnection) VerifC21CloseFlags() (isClosed, graceful, closeDone, g
 
 	return pc.isClosed.Load(), graceful, closeDone, gracefulDone
 }
+
+// VerifC21ConnectionStateLocked reports whether connectionStateMu (the mutex
+// that makes updateConnectionState one critical section) is held right now.
+func (pc *PeerConnection) VerifC21ConnectionStateLocked() bool {
+	if pc.connectionStateMu.TryLock() {
+		pc.connectionStateMu.Unlock()
+
+		return false
+	}
+
+	return true
+}
